@@ -37,6 +37,10 @@ type rankOp struct {
 // worthy: isNewSnapshotWorthy on two one-validator snapshots that differ only in the external
 // chain infos (Traits false) or only in the traits of their single chain info (Traits true)
 type worthyOp struct {
+	// Mixed (round 5): the validator has chain infos for every key; in the new snapshot the chains in Present have
+	// another ADDRESS (key rotation) and the other chains other TRAITS — two different reasons to be worthy, found in
+	// one loop over a Go map; only the boolean may leave that loop
+	Mixed   bool  `json:"mixed,omitempty"`
 	Traits  bool  `json:"traits"`
 	Keys    []int `json:"keys"`    // current
 	Present []int `json:"present"` // new (same length)
@@ -176,16 +180,47 @@ func (x *xworld) apply(op Op) (string, string) {
 				}
 				return &valsettypes.Snapshot{Validators: []valsettypes.Validator{v}, TotalShares: sdkmath.NewInt(100)}
 			}
+			if op.Worthy.Mixed {
+				rot := map[int]bool{}
+				for _, k := range op.Worthy.Present {
+					rot[k] = true
+				}
+				mkm := func(isNew bool) *valsettypes.Snapshot {
+					v := valsettypes.Validator{Address: valAddr(1), ShareCount: sdkmath.NewInt(100), State: valsettypes.ValidatorState_ACTIVE}
+					for _, k := range op.Worthy.Keys {
+						ci := &valsettypes.ExternalChainInfo{ChainType: "evm", ChainReferenceID: chainName(k), Address: "0x1", Traits: []string{"a"}}
+						if isNew && rot[k] {
+							ci.Address = "0x2"
+						} else if isNew {
+							ci.Traits = []string{"b"}
+						}
+						v.ExternalChainInfos = append(v.ExternalChainInfos, ci)
+					}
+					return &valsettypes.Snapshot{Validators: []valsettypes.Validator{v}, TotalShares: sdkmath.NewInt(100)}
+				}
+				mk = func(keys []int) *valsettypes.Snapshot { return mkm(len(keys) == 0) }
+			}
 			first := ""
 			for rep := 0; rep < repeat; rep++ {
-				got := fmt.Sprint(x.vk.VerifC08SnapshotWorthy(x.vctx, mk(op.Worthy.Keys), mk(op.Worthy.Present)))
+				// events of this execution are part of what must agree (the boolean is all that may leave the loops)
+				ectx := x.vctx.WithEventManager(sdk.NewEventManager())
+				var cur, nw *valsettypes.Snapshot
+				if op.Worthy.Mixed {
+					cur, nw = mk([]int{0}), mk(nil)
+				} else {
+					cur, nw = mk(op.Worthy.Keys), mk(op.Worthy.Present)
+				}
+				got := fmt.Sprint(x.vk.VerifC08SnapshotWorthy(ectx, cur, nw)) + "|" + eventsDigest(ectx.EventManager().Events())
+				if rep == 0 {
+					x.vctx.EventManager().EmitEvents(ectx.EventManager().Events())
+				}
 				if rep == 0 {
 					first = got
 				} else if got != first {
-					return "ok", "UNSTABLE"
+					return "ok", "UNSTABLE " + first + " vs " + got
 				}
 			}
-			return "ok", first
+			return "ok", strings.SplitN(first, "|", 2)[0]
 		})
 	case "purge":
 		return guarded(func() (string, string) {
@@ -441,6 +476,9 @@ func genWorthy(run *emit.Run) Op {
 			seen[present[i]] = true
 		}
 	}
+	if r.Intn(4) == 0 && n >= 2 { // one validator: some chains rotated their address, the others changed traits
+		return Op{Kind: "worthy", Worthy: &worthyOp{Mixed: true, Keys: keys, Present: keys[:1+r.Intn(n-1)]}}
+	}
 	return Op{Kind: "worthy", Worthy: &worthyOp{Traits: r.Intn(2) == 0, Keys: keys, Present: present}}
 }
 
@@ -518,6 +556,9 @@ func corpusScripts() [][]Op {
 		// the same at every scale: chains of 12 members with step 6e-2, 6e-3, ..., 6e-17 of the range — "equal within eps" is
 		// cyclic on the chain with step s for every eps in (s, 11 s], so every eps between 6e-17 and 0.66 meets one of them
 		corpusNearTies(),
+		// seeded C08-M: one validator rotated its address on chain 1 and changed traits on chains 2 and 3
+		{{Kind: "worthy", Worthy: &worthyOp{Mixed: true, Keys: []int{1, 2, 3}, Present: []int{1}}},
+			{Kind: "worthy", Worthy: &worthyOp{Mixed: true, Keys: []int{4, 7}, Present: []int{7}}}},
 		// seeded C08-C: month-end / DST / leap-day registrations of light-node clients
 		corpusLight(),
 	}
@@ -594,7 +635,7 @@ func emitCases(run *emit.Run, script []Op, outs [][]stepOut, envs []twinEnv) {
 				run.Count("rank-size", fmt.Sprint(len(rows)))
 				run.Case(fmt.Sprintf("C08.CRank %s %s %s", emit.List(rows), emit.Pair(op.Rank.W[0], op.Rank.W[1], op.Rank.W[2], op.Rank.W[3], op.Rank.W[4]), emit.List(got)), nontrivial, nil)
 			case "worthy":
-				if k != 0 {
+				if k != 0 || op.Worthy.Mixed {
 					continue
 				}
 				run.Count("worthy", o.Obs)
